@@ -22,8 +22,7 @@ func checkC06(p *Prog, res *Result, tier string) {
 	res.rule("C06-R4", "the listed state is the complete snapshot: partition borders contiguous and realigned, retried attempts start empty, a failed partition fails the read (C13-R5/R6/R8)", 5)
 
 	// ---- R1 ----
-	sub4 := newResult("C04")
-	checkC04(p, sub4, tier)
+	sub4 := p.subResult("C04", tier)
 	for _, o := range sub4.Obls {
 		if o.Rule == "C04-R4" {
 			res.add("C06-R1", o.Rule+" "+o.Construct, o.Status, o.Pos, o.Detail)
@@ -138,8 +137,7 @@ func checkC06(p *Prog, res *Result, tier string) {
 	checkHandOffAliasing(p, res, "C06-R5", "pkg/backend", "pkg/backend/scanner")
 
 	// ---- R4: what List returns is the whole snapshot (C13-R5/R6/R8) ----
-	sub13 := newResult("C13")
-	checkC13(p, sub13, tier)
+	sub13 := p.subResult("C13", tier)
 	for _, o := range sub13.Obls {
 		if o.Rule == "C13-R5" || o.Rule == "C13-R6" || o.Rule == "C13-R8" {
 			res.add("C06-R4", o.Rule+" "+o.Construct, o.Status, o.Pos, o.Detail)
@@ -147,8 +145,7 @@ func checkC06(p *Prog, res *Result, tier string) {
 	}
 
 	// ---- R3 ----
-	sub9 := newResult("C09")
-	checkC09(p, sub9, tier)
+	sub9 := p.subResult("C09", tier)
 	for _, o := range sub9.Obls {
 		if o.Rule == "C09-R1" && strings.Contains(o.Construct, "collectStorageWriteEvents") || (o.Rule == "C09-R1" && strings.Contains(o.Construct, "sequencer")) {
 			res.add("C06-R3", o.Rule+" "+o.Construct, o.Status, o.Pos, o.Detail)
